@@ -159,7 +159,7 @@ def oracle(rq, impl):
     if not impl.startswith("in "):
         return None
     t = rq.split()
-    a = nc.kv(impl)
+    a = nc.kv(impl.split("|")[0])          # the fields of the initialised value (the part after `|` is the parse-back)
     val, su = nc.parse_dbl(t[2]), nc.parse_dbl(t[3])
     if a.get("loc") != "0":
         return "LC_NUMERIC is not what it was before the call"
@@ -219,7 +219,7 @@ def nontrivial(rq, impl):
 
 def classify(rq, impl):
     t = rq.split()
-    a = nc.kv(impl)
+    a = nc.kv(impl.split("|")[0])
     if not impl.startswith("in "):
         return "crash"
     if a["rc"] != "0":
@@ -230,7 +230,7 @@ def classify(rq, impl):
 
 def finding_class(rq, impl, model, why):
     if why and why.startswith("plain notation") and "leading zeroes" in why:
-        a = nc.kv(impl)
+        a = nc.kv(impl.split("|")[0])
         t = rq.split()
         v = abs(nc.frac_of(nc.parse_dbl(t[2])))
         if v != 0 and int(a["msp"]) == nc.floor_log10(v) + 1:
